@@ -2,7 +2,7 @@
 # Build everything from files on disk (offline): translator, generated files, all Coq files, harness.
 set -e
 cd "$(dirname "$0")"
-export GOFLAGS=-mod=mod GOPROXY=off GOSUMDB=off GOTOOLCHAIN=local CGO_ENABLED=0
+export GOFLAGS=-mod=mod GOPROXY=off GOSUMDB=off GOTOOLCHAIN=local
 mkdir -p bin evidence replays coq/Gen
 (cd go/xlate && go build -o ../../bin/xlate .)
 ./bin/xlate /repo coq/Gen || true
